@@ -82,27 +82,31 @@ def inputs(ctx):
         langs = []
         layouts = []
         for _ in range(nl):
-            t = Fraction(rng.choice([0, rng.randrange(10**7), rng.randrange(DAY // 2)]))
+            # integer microseconds, or the SCC reader's grids: whole frames of 1001/30 ms
+            # (non-drop) or 1/30 s (drop-frame) - fractional instants never leave those grids
+            unit = rng.choice([Fraction(1), Fraction(1), Fraction(100100, 3), Fraction(100000, 3)])
+            span = int(DAY / unit)
+            t = rng.choice([0, rng.randrange(max(1, span // 8000)), rng.randrange(span // 2)])
             lst = []
             lay = []
             for _ in range(rng.randrange(1, 13)):
-                r = rng.random()
-                if r < 0.25:
-                    t = max(t, Fraction(min(rng.choice(carries) + rng.choice([-1, 0, 0, 1]) + (0 if t < 10**6 else int(t) // (36 * 10**8) * 36 * 10**8), DAY - 2)))
-                if rng.random() < 0.3:
-                    # SCC style: frame counts on the 29.97 / 30 fps grids
-                    fr = rng.randrange(1, 200)
-                    t = t + (Fraction(fr * 1001000, 30) if rng.random() < 0.5 else Fraction(fr * 10**6, 30))
+                if rng.random() < 0.25:
+                    c = rng.choice(carries) + rng.choice([-1, 0, 0, 1])
+                    hop = int(t * unit) // (36 * 10**8) * 36 * 10**8
+                    t = max(t, min(int((c + hop) / unit), span - 2))
+                if unit == 1:
+                    t += rng.choice([0, 1, 999, 1000, rng.randrange(10**6), rng.randrange(10**8)])
+                    d = rng.choice([0, 1, 1000, rng.randrange(5 * 10**6)])
                 else:
-                    t = t + rng.choice([0, 1, 999, 1000, rng.randrange(10**6), rng.randrange(10**8)])
-                d = rng.choice([0, 1, 1000, rng.randrange(5 * 10**6), Fraction(rng.randrange(1, 150) * 1001000, 30)])
-                if t + d >= DAY:
+                    t += rng.choice([0, 1, 2, 29, 30, rng.randrange(1, 3000)])
+                    d = rng.choice([0, 1, 2, 30, rng.randrange(1, 150)])
+                if (t + d) * unit >= DAY:
                     break
                 rep = rng.choice([1, 1, 1, 1, 2, 3])
                 for _ in range(rep):
-                    lst.append((_t(t), _t(t + d)))
+                    lst.append((_t(t * unit), _t((t + d) * unit)))
                     lay.append(rng.choice([1, 1, 1, 2, 3]) if w == "WebVTT" else 1)
-                t = t + d + rng.choice([0, 0, 1, rng.randrange(10**6)])
+                t = t + d + (rng.choice([0, 0, 1, rng.randrange(10**6)]) if unit == 1 else rng.choice([0, 0, 1, rng.randrange(3000)]))
             if not lst:
                 lst = [("0", "1000")]
                 lay = [1]
